@@ -82,10 +82,14 @@ CHECKS = {
         assumptions=ASSUME_COMMON,
     ),
     "C10": dict(
+        crash_is_violation=True,
         parts=[dict(pkg="table", run="^TestC10$",
                     quick=dict(shards=4, checks=150, timeout=300),
-                    thorough=dict(shards=16, checks=2500, timeout=1800))],
-        rule='cases = generated table histories in which, at every decision point (group requests, turns, after settlement, paused), 0-3 intruder attempts are drawn from a 5x9 actor/action matrix (current player with a disallowed kind, other participant, folded/all-in participant, seated non-participant, stranger) x (fold check call bet raise allin pass ready pay); oracle: an attempt the hand does not allow returns an error and table JSON, hand-state JSON, successful backend calls and emitted events are identical before and after; every accepted driver action is applied exactly once and announced once with player, seat, action, round, hand; non-trivial = a case with >=1 refused attempt by a dealt-in player out of turn and >=1 by a non-participant; distinct = distinct abstract traces',
+                    thorough=dict(shards=16, checks=2500, timeout=1800)),
+               dict(pkg="table", run="^TestC10Burst$",
+                    quick=dict(shards=3, checks=120, timeout=300),
+                    thorough=dict(shards=12, checks=2000, timeout=1800))],
+        rule='cases = generated table histories in which, at every decision point (group requests, turns, after settlement, paused), 0-3 intruder attempts are drawn from a 5x9 actor/action matrix (current player with a disallowed kind, other participant, folded/all-in participant, seated non-participant, stranger) x (fold check call bet raise allin pass ready pay); oracle: an attempt the hand does not allow returns an error and table JSON, hand-state JSON, successful backend calls and emitted events are identical before and after; every accepted driver action is applied exactly once and announced once with player, seat, action, round, hand; concurrent part (c10b): at drawn turns every player at the table and strangers submit an action at the same instant - accepted submissions = announced actions, each successful backend call belongs to the entry whose turn it then was, the hand still settles with chips conserved and equal to the pure replay; non-trivial = a case with >=1 refused attempt by a dealt-in player out of turn and >=1 by a non-participant; distinct = distinct abstract traces',
         mandatory=dict(quick=['cell:current/pass', 'cell:participant/fold', 'cell:inactive/check', 'cell:nonparticipant/call', 'cell:stranger/bet', 'attempt_group_request', 'attempt_after_settle', 'attempt_when_paused']),
         assumptions=ASSUME_COMMON,
     ),
